@@ -180,6 +180,58 @@ def go() -> uint256:
     self.x = 5
     return self.h(self.x, self.wr())
 """, [("g(uint256)", [2]), ("g(uint256)", [7]), ("go()", [])]),
+    # a callee whose spill slots (prologue popmany / deep swaps) started at fn_eom[callee] and overwrote the caller's frame:
+    # memory-passed arguments (notes/patches/c14s_spill_region_aliases_caller_frame.diff)
+    ("""
+@internal
+def f4(p0: uint256, p1: uint256, p2: uint256, p3: uint256, p4: uint256, p5: uint256, p6: uint256, p7: uint256, p8: uint256, p9: uint256, p10: uint256, p11: uint256, p12: uint256, p13: uint256, p14: uint256, p15: uint256, p16: uint256, p17: uint256, p18: uint256, p19: uint256) -> uint256:
+    t: uint256 = unsafe_add(unsafe_add(unsafe_add(unsafe_add(unsafe_add(unsafe_add(unsafe_add(unsafe_add(unsafe_add(unsafe_add(unsafe_add(unsafe_add(unsafe_add(unsafe_add(unsafe_add(unsafe_add(0, unsafe_mul(p1, 5)), unsafe_mul(p2, 8)), unsafe_mul(p3, 11)), unsafe_mul(p4, 14)), unsafe_mul(p5, 17)), unsafe_mul(p6, 20)), unsafe_mul(p7, 23)), unsafe_mul(p8, 26)), unsafe_mul(p9, 29)), unsafe_mul(p10, 32)), unsafe_mul(p13, 41)), unsafe_mul(p14, 44)), unsafe_mul(p15, 47)), unsafe_mul(p16, 50)), unsafe_mul(p17, 53)), unsafe_mul(p19, 59))
+    return t
+
+@external
+def w4(x: uint256) -> uint256:
+    base: uint256 = unsafe_mul(x, 7)
+    r: uint256 = self.f4(unsafe_add(x, 0), unsafe_add(x, 1), unsafe_add(x, 2), unsafe_add(x, 3), unsafe_add(x, 4), unsafe_add(x, 5), unsafe_add(x, 6), unsafe_add(x, 7), unsafe_add(x, 8), unsafe_add(x, 9), unsafe_add(x, 10), unsafe_add(x, 11), unsafe_add(x, 12), unsafe_add(x, 13), unsafe_add(x, 14), unsafe_add(x, 15), unsafe_add(x, 16), unsafe_add(x, 17), unsafe_add(x, 18), unsafe_add(x, 19))
+    r2: uint256 = self.f4(unsafe_add(x, 100), unsafe_add(x, 1), unsafe_add(x, 2), unsafe_add(x, 3), unsafe_add(x, 4), unsafe_add(x, 5), unsafe_add(x, 6), unsafe_add(x, 7), unsafe_add(x, 8), unsafe_add(x, 9), unsafe_add(x, 10), unsafe_add(x, 11), unsafe_add(x, 12), unsafe_add(x, 13), unsafe_add(x, 14), unsafe_add(x, 15), unsafe_add(x, 16), unsafe_add(x, 17), unsafe_add(x, 18), unsafe_add(x, 19))
+    return unsafe_add(base, unsafe_add(r, unsafe_mul(r2, 3)))
+""", [("w4(uint256)", [0]), ("w4(uint256)", [3])]),
+    # same defect, no memory-passed argument: a caller memory array live across the call to a spilling callee
+    ("""
+@internal
+def deep(p0: uint256, p1: uint256, p2: uint256, p3: uint256, p4: uint256, p5: uint256) -> uint256:
+    a0: uint256 = unsafe_add(p0, 1)
+    a1: uint256 = unsafe_add(p1, 2)
+    a2: uint256 = unsafe_add(p2, 3)
+    a3: uint256 = unsafe_add(p3, 4)
+    a4: uint256 = unsafe_add(p4, 5)
+    a5: uint256 = unsafe_add(p5, 6)
+    a6: uint256 = unsafe_mul(p0, 7)
+    a7: uint256 = unsafe_mul(p1, 8)
+    a8: uint256 = unsafe_mul(p2, 9)
+    a9: uint256 = unsafe_mul(p3, 10)
+    a10: uint256 = unsafe_mul(p4, 11)
+    a11: uint256 = unsafe_mul(p5, 12)
+    a12: uint256 = unsafe_sub(p0, 13)
+    a13: uint256 = unsafe_sub(p1, 14)
+    a14: uint256 = unsafe_sub(p2, 15)
+    a15: uint256 = unsafe_sub(p3, 16)
+    a16: uint256 = unsafe_sub(p4, 17)
+    a17: uint256 = unsafe_sub(p5, 18)
+    r: uint256 = 0
+    for i: uint256 in range(2):
+        r = unsafe_add(r, unsafe_add(unsafe_add(unsafe_add(unsafe_add(unsafe_add(unsafe_add(unsafe_add(unsafe_add(unsafe_add(unsafe_add(unsafe_add(unsafe_add(unsafe_add(unsafe_add(unsafe_add(unsafe_add(unsafe_add(a0, a1), a2), a3), a4), a5), a6), a7), a8), a9), a10), a11), a12), a13), a14), a15), a16), a17))
+    return r
+
+@external
+def w(x: uint256) -> uint256:
+    arr: uint256[8] = [x, unsafe_add(x, 1), unsafe_add(x, 2), unsafe_add(x, 3), unsafe_add(x, 4), unsafe_add(x, 5), unsafe_add(x, 6), unsafe_add(x, 7)]
+    r: uint256 = self.deep(arr[0], arr[1], arr[2], arr[3], arr[4], arr[5])
+    r2: uint256 = self.deep(arr[7], arr[6], arr[5], arr[4], arr[3], arr[2])
+    s: uint256 = 0
+    for i: uint256 in range(8):
+        s = unsafe_add(unsafe_mul(s, 3), arr[i])
+    return unsafe_add(unsafe_add(r, unsafe_mul(r2, 5)), s)
+""", [("w(uint256)", [0]), ("w(uint256)", [11])]),
 ]
 
 
